@@ -12,7 +12,10 @@ re-read record equals the dump of the original - header, sequence, topology, eve
 location, notes, codon_start, written qualifiers, typed attributes read off the objects, leftover untyped
 qualifiers, and the area structure with numbers and cross references resolved to member identities;
 (2) the second output equals the first byte for byte; (3) writing the same object twice gives the same text.
-Each differing (format, section, field) is one clause, reported once per case with structural facts.
+Each differing (format, section, field) of a feature or of the area structure is one clause; a deviation is
+recorded once per clause and feature with structural facts (what the feature is, what exactly changed), so that
+the classifiers of known mechanisms can be narrow. Write -> read -> write is run on the SAME generated record
+for both formats. Layouts the pipeline itself refuses (create_regions raising) are counted as skipped.
 """
 from __future__ import annotations
 
@@ -41,7 +44,7 @@ RULE = ("records of 4-16 kb, linear or circular, 3-14 genes on real DNA (1-3 exo
         "with GO terms, ModularDomain/AntismashDomain with ASF/subtypes/specificity, CDS motifs, prepeptides with "
         "leader/core/tail, single- and multi-CDS modules, 0-5 protoclusters derived from each other (same core, "
         "same core and neighbourhood = identical coordinates, core inside core, adjacent, over the origin), T2PKS "
-        "qualifier, sideloaded protoclusters and subregions (strandless locations), subregions, then "
+        "qualifier, sideloaded protoclusters and subregions (strandless locations), subregions, foreign CDS_motifs, then "
         "create_candidate_clusters and create_regions. Non-trivial: a region with >= 2 candidate clusters, or an "
         "origin-spanning area or gene; distinct by structure (topology, counts of every feature/area kind, kinds).")
 ASSUMPTIONS = [
@@ -281,15 +284,16 @@ def _k13(clause, facts):
 @findings.classifier("c10_feature_table_order_with_origin_crossing_feature_inside_area")
 def _k14(clause, facts):
     """ Record.to_biopython sorts all features with __lt__; an area puts itself before everything it contains,
-        a gene/domain crossing the origin puts itself before everything (negative comparator start): for such a
-        feature inside an area both orders hold and the sorted feature table depends on the order of the lists,
+        a gene/domain/area crossing the origin puts itself before everything (negative comparator start): for such
+        a feature inside (or overlapping) an area the comparisons contradict each other, the order is no weak order
+        and the sorted feature table depends on the order of the lists,
         which differs after a reload ('source' can even land behind the region). Only the order of otherwise
         identical features may differ. Must not hide: any difference in a feature's content, any order difference
-        in a record without an origin-crossing feature inside an area. """
+        in a record without any origin-crossing feature or area. """
     fmt, parts = _split(clause)
     if parts != ["fixed-point"] or facts.get("unexplained_dump_differences") != 0:
         return False
-    if not facts.get("origin_crossing_feature_inside_area") or "features/order" not in facts.get("sites", []):
+    if not facts.get("origin_crossing_feature_or_area_present") or "features/order" not in facts.get("sites", []):
         return False
     return _sites_covered(fmt, facts, extra=("features/order",))
 
@@ -783,6 +787,8 @@ def one_format(ctx, fmt, write, read, forward, record, case, base_facts):
         sites = gbk_diff_sites(first, second) if fmt == "gbk" else json_diff_sites(first, second)
         facts = {**base_facts, "sites": sites, **area_facts(original, observed),
                  "origin_crossing_feature_inside_area": crossing_feature_inside_area(original),
+                 "origin_crossing_feature_or_area_present": original["topology"] == "circular" and any(
+                     crosses_origin(entry["location"]) for entry in original["features"]),
                  "dump_equal": not attributed and not unexplained,
                  "dump_differences_attributed_to": sorted(attributed), "unexplained_dump_differences": unexplained}
         ctx.violate(f"{fmt}:fixed-point", facts, case)
@@ -853,7 +859,7 @@ def compare_dumps(ctx, fmt, original, observed, case, base_facts):
 
 def run(ctx):
     A.quiet()
-    n = ctx.quota(300, 12000)
+    n = ctx.quota(240, 8000)
     for i in ctx.cases(n, every=4):
         rng = ctx.rng("case", i)
         spec = A.gen_spec(rng, length=rng.choice([4000, 6000, 9000]) if ctx.tier == "quick" else None)
